@@ -419,12 +419,16 @@ def bounds_for(ctx):
     b.append(("n=4, routes of 1 or 3 links, symmetric or one-way (7 states per pair), " + sc, "space", (4, a13q, "strong", 2)))
     if not ctx.quick:
         b += [("n=6, the 6 trees and the 6-cycle with symmetric routes of 1..3 links, the directed 6-cycle", "list", fixed_family_n6()),
-              ("n=5, symmetric routes of 1 or 3 links or one-way routes of 1 link (5 states per pair), " + sc, "space", (5, a5, "strong", 3)),
               ("n=4, routes of 1 or 3 links: symmetric, one-way, or both ways with different lengths (9 states per pair), " + sc,
                "space", (4, a13m, "strong", 2)),
+              ("n=5, symmetric routes of 1 or 3 links or one-way routes of 1 link (5 states per pair), " + sc, "space", (5, a5, "strong", 3)),
               ("n=4, routes of 1 or 3 links, all 11 states per pair, " + sc, "space", (4, a13, "strong", 2)),
               ("n=4, routes of 1..3 links (19 states per pair), " + sc, "space", (4, full, "strong", 2))]
     return b
+
+
+# number of graphs of the large bounds (measured; only used to decide whether a bound still fits in the budget)
+SIZE_HINT = {"n=4/9": 16965, "n=5/5": 65908, "n=4/11": 64325, "n=4/19": 140000}
 
 
 def _worker(arg):
@@ -477,10 +481,13 @@ def run(ctx):
     # the budget counts exploration time: Ctx's clock started before bin/check (re)built libsimgrid
     deadline = common.Deadline(float(os.environ.get("VERIF_BUDGET_S") or (150 if ctx.quick else 1200)))
     pool = cf.ProcessPoolExecutor(max_workers=common.NCPU)
+    rate = None          # graphs per second measured on the last sizeable bound (the machine is shared: it varies a lot)
     for name, kind, payload in bounds_for(ctx):
-        if done and (deadline.over() or deadline.left() < 15):      # the first bound always runs
+        hint = SIZE_HINT.get(name.split(",")[0] + "/" + str(len(payload[1]) if kind == "space" else 0))
+        too_long = bool(done and rate and hint and hint / rate > deadline.left())
+        if done and (deadline.over() or deadline.left() < 15 or too_long):      # the first bound always runs
             exhaustive = False
-            skipped.append(name)
+            skipped.append(name + (" (estimated %d s at %.0f graphs/s, %d s left)" % (hint / rate, rate, deadline.left()) if too_long else ""))
             continue
         t0 = time.time()
         if kind == "space":
@@ -502,6 +509,8 @@ def run(ctx):
             if smp and len(samples) < 10:
                 samples.append(smp)
         done.append({"bound": name, "graphs": be, "wall_s": round(time.time() - t0, 1)})
+        if be >= 2000:
+            rate = be / max(1e-3, time.time() - t0)
         common.log("C25 bound done: %s (%d graphs, %.1fs)" % (name, be, done[-1]["wall_s"]))
     pool.shutdown()
     groups = {}
@@ -509,7 +518,9 @@ def run(ctx):
         groups.setdefault((p[0], p[1], graph_class(g)), []).append((g, p))
     violations = []
     for (rule, kind, cls), items in sorted(groups.items()):
-        items.sort(key=lambda it: (it[0]["n"], len(it[0]["decl"]), sum(x[3] for x in it[0]["decl"]), graph_str(it[0])))
+        # smallest graph first; one-way declarations before symmetrical ones so that quick and thorough pick the same representative
+        items.sort(key=lambda it: (it[0]["n"], len(it[0]["decl"]), sum(x[3] for x in it[0]["decl"]),
+                                   sum(1 for x in it[0]["decl"] if x[0] == "s"), graph_str(it[0])))
         g, p = items[0]
         key = "C25 %s rule=%s class=%s min=[%s]" % (kind, rule, cls, graph_str(g))
         what = "%s in zone %s on pair %s: %s; %d graph(s) of this class fail this rule" % (rule, kind, p[2], p[3], len(items))
